@@ -1,8 +1,16 @@
 from checks.storelib import *
 from checks import storelib
 PROP = "C02"
-READY = False
-LEVEL_TEXT = "pending"; LEVEL_NOTE = "pending"; TECHNIQUE = "Coq proof + history differential"
+READY = True
+LEVEL_TEXT = ("Machine-checked simulation proof (Coq): for every operation list (appends with any rollover/too-big oracle, syncs, reopens, crashes) the concrete record-level model of the writer "
+              "(validate_event_versions' lookup chain pending -> live index -> sealed indexes, partition-sequence cache, handle_write) answers every append exactly as the abstract event store "
+              "spec_append does on the abstract log: same assigned sequences/versions or the same reject reason (C02_accept_iff), a reject leaves the abstract log and every read unchanged "
+              "(C02_reject_unchanged*, with the one visible exception that a rollover triggered by the rejected append syncs earlier accepted appends: C02_reject_unchanged_rollover_refuted), accepted "
+              "appends get the next gapless numbers which the latest-version/sequence queries return once synced (C02_accept_numbers, C02_latest_queries). Tie to the code: histories executed on the real "
+              "Database, compared op by op with the extracted model and the spec.")
+LEVEL_NOTE = ("Trusted: Coq kernel, extraction, OCaml driver, Rust harness. Hypothesis wf_txn (non-empty, flag => single event) is what Transaction::new guarantees. Size-based decisions (rollover, too big) "
+              "are oracle inputs here and are C19's subject. 'Changes nothing observable' is read modulo a sync of earlier ACCEPTED appends (rollover happens before the sequence/timestamp checks).")
+TECHNIQUE = "Coq refinement proof (invariant + simulation by induction over operation lists) of a hand-written Gallina model + history differential against the real Database"
 RULE = ("histories of appends with Any/Exists/Empty/Exact expectations (right and wrong, repeated streams inside a transaction, foreign partition keys, expected partition sequences, bad timestamps), "
         "each followed by latest-version / latest-sequence queries; rollovers and reopens in between; non-trivial = >=2 appends, one succeeded")
 monitor_e = storelib.monitor_kinds({"A", "SV", "PS"}, "accept")
